@@ -194,6 +194,24 @@ def complement_family(ctx):
     ctx.count("complement_family_cases", 3 * 4)
 
 
+def exhaustion_family(ctx):
+    """mass-action reactions that take one species twice (or two species twice each), the reactants listed in every order,
+    run from small odd counts until nothing can fire any more: the last copy of a species that is needed twice stays, no count
+    goes below zero, every row is reachable."""
+    import itertools
+    T = np.linspace(0, 40.0, 41)
+    for multiset in (["A", "A", "B"], ["A", "A", "B", "B"], ["A", "A", "A", "B"]):
+        for reac in sorted(set(itertools.permutations(multiset))):
+            spec = {"species": ["A", "B", "C"], "reactions": [{"reactants": list(reac), "products": ["C"], "prop": {"type": "massaction", "k": "k0"}}],
+                    "params": {"k0": 0.5}, "ic": {"A": 7, "B": 20, "C": 0}, "needs_safe": False}
+            for kind in ("ssa", "volume", "delay"):
+                before = len(ctx.violations)
+                one(ctx, spec, kind, T, [11, 12], False)
+                if len(ctx.violations) > before:
+                    return
+            ctx.count("exhaustion_family_orders")
+
+
 def run(ctx):
     rng = ctx.rng
     nnet, nseeds = (24, 3) if ctx.quick() else (300, 12)
@@ -232,6 +250,7 @@ def run(ctx):
     for kind in ("ssa", "volume", "delay"):
         one(ctx, chain, kind, np.linspace(0, 5.0, 51), [rng.randint(1, 2**31) for _ in range(2)], False)
     complement_family(ctx)
+    exhaustion_family(ctx)
 
 
 def replay(ctx, obj):
